@@ -180,7 +180,10 @@ def gen_case(rng: random.Random):
     if rng.random() < 0.4:
         lines += rng.sample(header, min(len(header), rng.randint(1, 6)))
         feats.add("header")
-    chain_mode = rng.choice(["keep", "keep", "blank", "split", "repeat"])
+    chain_mode = rng.choice(["keep", "keep", "blank", "split", "repeat", "interleave"])
+    same_number = rng.random() < 0.15  # consecutive residues that differ only by insertion code (52, 52A, 52B)
+    prev_rs, prev_icode = None, " "
+    used_numbers = set()
     rs0 = rng.choice([1, 1, 5, 100, -3, -200, -999, 990, 9900])
     rstep = rng.choice([1, 1, 1, 2, 10])
     waters = rng.random() < 0.5
@@ -197,13 +200,23 @@ def gen_case(rng: random.Random):
         elif chain_mode == "repeat":
             chain = "AB"[(ri // 2) % 2]
             feats.add("repeated-chain")
-        rs = rs0 + ri * rstep
+        elif chain_mode == "interleave":
+            # residues of two chains alternate and share their numbers: (A,1) (B,1) (A,2) (B,2) …
+            chain = "AB"[ri % 2]
+            feats.add("interleaved-chains-same-numbers")
+        rs = rs0 + ri * rstep if chain_mode != "interleave" else rs0 + (ri // 2) * rstep
         if rs < 0:
             feats.add("negative-resseq")
         icode = " "
         if rng.random() < 0.1:
             icode = rng.choice("ABC")
             feats.add("icode")
+        if same_number and chain_mode != "interleave" and prev_rs is not None and ri % 3 != 0:
+            rs = prev_rs
+            icode = "ABCDEFG"[("ABCDEFG".index(prev_icode) + 1) % 7] if prev_icode in "ABCDEFG" else "A"
+            feats.add("same-number-different-icode")
+        prev_rs, prev_icode = rs, icode
+        used_numbers.add(rs)
         altloc_dup = rng.random() < 0.12
         for li, l in enumerate(res):
             l = set_cols(l, 21, 22, chain)
@@ -226,9 +239,24 @@ def gen_case(rng: random.Random):
             feats.add("TER")
     if waters:
         wname = rng.choice(["HOH", "WAT"])
-        for _ in range(rng.randint(1, 3)):
+        wnum = None
+        wused = set()
+        for wi in range(rng.randint(1, 3)):
             x, y, z = (rng.uniform(-50, 50) for _ in range(3))
-            body.append(f"HETATM{serial:5d}  O   {wname} {rng.choice('AW ')}{rng.randint(1, 999):4d}    {x:8.3f}{y:8.3f}{z:8.3f}  1.00 20.00           O  ")
+            wchain = rng.choice("AW ")
+            num = rng.randint(1, 999)
+            if wi > 0 and wnum is not None and rng.random() < 0.4:
+                # same number as the previous water, other chain (HOH A 101 / HOH B 101)
+                num = wnum[1]
+                wchain = "B" if wnum[0] != "B" else "A"
+                feats.add("waters-same-number-other-chain")
+            tries = 0
+            while ((wchain, num) in wused or num in used_numbers) and tries < 50:
+                num = rng.randint(1, 999)
+                tries += 1
+            wused.add((wchain, num))
+            wnum = (wchain, num)
+            body.append(f"HETATM{serial:5d}  O   {wname} {wchain}{num:4d}    {x:8.3f}{y:8.3f}{z:8.3f}  1.00 20.00           O  ")
             serial += 1
         feats.add("water")
         if serial > 10000:
@@ -403,6 +431,24 @@ def signature(lines, drop, kind):
             continue
         shape.append(k)
     sig = {"kind": kind, "shape": " ".join(shape), "drop_water": drop}
+    if kind == "extra":
+        # an END record between two records of one atom key (alternate locations of one atom):
+        # END closes the pending residue, so the second record starts a residue of its own
+        last_end = None
+        keys_before_end = set()
+        cur = set()
+        for l in lines:
+            k = line_kind(l)
+            if k == "END":
+                keys_before_end |= cur
+                last_end = True
+            elif k == "atom":
+                key = (l[21:27], l[12:16].strip())
+                if last_end and key in keys_before_end:
+                    return {"kind": "extra", "cause": "END-inside-a-residue-splits-it"}
+                cur.add(key)
+            elif k in ("MODEL", "MODEL-nonum", "ENDMDL"):
+                pass
     if kind in ("extra",) and drop:
         serials = [int(l[6:11]) for l in lines if line_kind(l) == "atom" and l[17:20].strip() in ("HOH", "WAT")]
         sig["water_serial_ge_10000"] = any(s >= 10000 for s in serials)
@@ -474,7 +520,7 @@ def run(ctx: Ctx):
             seen_sigs.add(rough)
             small = ddmin(lines, nl, drop, kind)
             sig = signature(small, drop, kind)
-            ctx.violate(sig, f"{kind}: PDB input of {len(small)} line(s) [{sig['shape']}] is not ingested as the column reader sees it", {"text": nl.join(small) + nl, "drop_water": drop, "original_text": text})
+            ctx.violate(sig, f"{kind}: PDB input of {len(small)} line(s) [{sig.get('shape') or sig.get('cause')}] is not ingested as the column reader sees it", {"text": nl.join(small) + nl, "drop_water": drop, "original_text": text})
             ctx.sample({"minimised": nl.join(small), "kind": kind}, limit=8)
 
 
